@@ -587,11 +587,7 @@ theorem mvp60_lower_bound (app : App) (ctx : Model.Context) (eu wu fuel : Nat) :
 `Proofs.Mvp60Witness.dropApp` ends `offEnd` after 319 cycles with one instruction executed -/
 example : Proofs.Mvp60.Clean (Model.Mvp60.run Proofs.Mvp60Witness.dropApp (Proofs.Mvp60Witness.ctxS0 64) 2 2 1000).halt ∧
     (Model.Mvp60.run Proofs.Mvp60Witness.dropApp (Proofs.Mvp60Witness.ctxS0 64) 2 2 1000).final.executed = 1 := by
-  have h := Proofs.Mvp60Witness.drop_p2
-  have h1 : (Model.Mvp60.run Proofs.Mvp60Witness.dropApp (Proofs.Mvp60Witness.ctxS0 64) 2 2 1000).halt = some .offEnd :=
-    congrArg Prod.fst h
-  have h2 : (Model.Mvp60.run Proofs.Mvp60Witness.dropApp (Proofs.Mvp60Witness.ctxS0 64) 2 2 1000).final.executed = 1 :=
-    congrArg (fun x => x.2.2.1) h
+  obtain ⟨h1, _, h2, _⟩ := Proofs.Mvp60Witness.obs_eq Proofs.Mvp60Witness.drop_p2
   exact ⟨by rw [h1]; trivial, h2⟩
 
 end Props.C12
